@@ -24,6 +24,9 @@ pub enum Op {
     Push(u8),
     ExtendInherent(Vec<u8>),
     ExtendTrait(Vec<u8>),
+    /// `extend(vec.into_iter().filter(..))`: an iterator whose size_hint upper bound exceeds what it yields;
+    /// symbols equal to the code are dropped; `via_trait` selects `Extend::extend`
+    ExtendFiltered(Vec<u8>, u8, bool),
     Append(Arg),
     Prepend(Arg),
     Insert(u16, Arg),
@@ -158,6 +161,19 @@ fn check<C: Cm>(case: &Case) -> PResult {
                 edits += 1;
                 no_panic(&format!("extend_panic/{n}"), &desc, || Extend::extend(&mut target, sy.vec(&v)))
             }
+            Op::ExtendFiltered(v, drop, via_trait) => {
+                let v: Vec<u8> = v.iter().map(|c| if m.codes().contains(c) { *c } else { m.codes()[0] }).collect();
+                let kept: Vec<u8> = v.iter().copied().filter(|c| c != drop).collect();
+                desc = format!("extend({} symbols through filter keeping {})", v.len(), kept.len());
+                model.extend_from_slice(&kept);
+                edits += 1;
+                let d = *drop;
+                if *via_trait {
+                    no_panic(&format!("extend_panic/{n}"), &desc, || Extend::extend(&mut target, sy.vec(&v).into_iter().filter(move |s| s.to_bits() != d)))
+                } else {
+                    no_panic(&format!("extend_panic/{n}"), &desc, || target.extend(sy.vec(&v).into_iter().filter(move |s| s.to_bits() != d)))
+                }
+            }
             Op::Append(_) => {
                 desc = format!("append({} symbols)", arg_codes.len());
                 model.extend_from_slice(&arg_codes);
@@ -267,6 +283,7 @@ fn op(id: CodecId) -> BoxedStrategy<Op> {
         2 => gen::code(m).prop_map(Op::Push),
         1 => gen::codes(m, 40).prop_map(Op::ExtendInherent),
         1 => gen::codes(m, 40).prop_map(Op::ExtendTrait),
+        1 => (gen::codes(m, 40), gen::code(m), any::<bool>()).prop_map(|(v, d, t)| Op::ExtendFiltered(v, d, t)),
         2 => arg(id).prop_map(Op::Append),
         2 => arg(id).prop_map(Op::Prepend),
         3 => (any::<u16>(), arg(id)).prop_map(|(p, a)| Op::Insert(p, a)),
@@ -294,6 +311,7 @@ fn grid(id: CodecId) -> Vec<Op> {
     vec![
         Op::Push(y),
         Op::ExtendInherent(vec![x, y]),
+        Op::ExtendFiltered(vec![x, y, y, x, y], x, false),
         Op::Append(Arg::Other(w1.clone())),
         Op::Append(Arg::SelfWindow { a: 20000, b: 40000 }),
         Op::Prepend(Arg::Other(w1.clone())),
@@ -317,6 +335,13 @@ pub fn run(ctx: &mut Ctx) {
     for id in ALL_CODECS {
         let cases = ctx.cases(2000, 10);
         ctx.forall(&format!("histories/{}", id.name()), cases, strat(id, max, 25), dispatch);
+    }
+    // long starting sequences, short histories
+    for id in ALL_CODECS {
+        let th = ctx.thorough();
+        let cases = ctx.cases(5, 8);
+        let st = (gen::owned_spec_long(id, th), vec(op(id), 1..=5)).prop_map(move |(start, ops)| Case { codec: id, start, ops });
+        ctx.forall(&format!("histories_long/{}", id.name()), cases, st, dispatch);
     }
     // bounded-exhaustive: all histories up to the depth over the grid, from 5 starting lengths
     let depth = 3;
